@@ -12,6 +12,7 @@ GROUPS9 = ["mass", "density", "neutron", "xray", "emission", "covalent_radius",
 
 # what must be initialised (and untainted) on T before a digest group of T is claimed
 PREREQ = {
+    "base": set(),
     "mass": {"mass"},
     "density": {"mass", "density"},
     "covalent_radius": {"covalent_radius"},
